@@ -22,7 +22,13 @@ Families (every element of each is executed; nothing is sampled):
      compress(x) is held while compress(y) runs (likewise expand on their encodings, and compress fed its own held result):
      a result must keep its bytes after later calls and must not change its input
 
+  G  the pair as wired into the codec: every value row of 14 basis templates (all 481 in the thorough tier), flagged zerocoded, through the real
+     UDPMessageSerializer.serialize: the body on the wire must be canonical and must zero-decode (reference) to the plain body; the
+     same for a message that was parsed from a zerocoded datagram carrying 1..5 bytes beyond the last template block (with zeros
+     among them), body touched, then serialized again
+
 Clauses:
+  wired-roundtrip / wired-canonical   family G, sites UDPMessageSerializer.serialize[zerocoded body] / [...after parse with trailing bytes]
   result-stable a result returned by compress/expand still holds the same bytes after any later call; feeding a held result
                 back in gives what a copy of it gives
   roundtrip     expand(compress(s)) == s for len(s) <= CAP   (site = the side the reference blames)
@@ -40,12 +46,13 @@ Not enumerated here: the zero-coded header peek (covered through whole datagrams
 from __future__ import annotations
 
 import itertools
+import struct
 import re
 import tracemalloc
 from hippolyzer.lib.base.message.udpdeserializer import UDPMessageDeserializer
 from hippolyzer.lib.base.message.udpserializer import UDPMessageSerializer
 
-from hmc import refwire
+from hmc import msggen, refwire
 from hmc.core import HarnessError, Part, Run, pmap
 
 LEVEL = "exploration"
@@ -351,6 +358,79 @@ def _unit_F(arg):
     return part.dump()
 
 
+TRAILERS = (b"\x00", b"\x05\x00\x00\x00\x00", b"\x01\x00\x01", b"\x00\x00", b"\x07\x00", b"\x09")
+_GEN = None
+
+
+def _wire_body(data: bytes) -> bytes:
+    flags, _pid, _off = struct.unpack(">BIB", data[:6])
+    end = len(data)
+    if flags & 0x10:
+        end -= 1 + 4 * data[-1]
+    return data[6:end]
+
+
+def _check_wired(part: Part, wire: bytes, plain: bytes, site: str, w: dict):
+    if b"\x00\x00" in wire or wire[-1:] == b"\x00":
+        part.violation("wired-canonical", site, w, f"zero-coded body on the wire {wire[:24].hex()}.. has a zero without a count in 1..255")
+    try:
+        back = ref_expand(wire)
+    except Exception as e:
+        back = repr(e)
+    if back != plain:
+        part.violation("wired-roundtrip", site, w, f"the body on the wire does not zero-decode to the message body: {len(plain)} plain bytes, "
+                                                   f"wire {wire[:20].hex()}.. decodes to {back[:20].hex() if isinstance(back, bytes) else back}..")
+
+
+def _unit_G(name):
+    global _GEN
+    if _GEN is None:
+        _GEN = msggen.Gen(0)
+    gen = _GEN
+    part = Part()
+    ser = UDPMessageSerializer()
+    de = UDPMessageDeserializer()
+    tmpl = gen.templates[name]
+    seen = set()
+    for case in gen.value_rows(name):
+        case = dict(case, flags=(case["flags"] | 0x80) & ~0x10, acks=(), extra=b"")
+        ref = gen.ref_message(case)
+        plain = refwire.encode_body(tmpl, ref["blocks"], b"")
+        if len(plain) > CAP or plain in seen:
+            continue
+        seen.add(plain)
+        part.count("evaluations")
+        part.count("G_cases")
+        w = {"kind": "wired", "name": name, "tag": case["tag"]}
+        try:
+            data = bytes(ser.serialize(gen.lib_message(case)))
+        except Exception as e:
+            part.violation("wired-roundtrip", "UDPMessageSerializer.serialize[zerocoded body]", w, f"serialize raised {e!r}")
+            continue
+        _check_wired(part, _wire_body(data), plain, "UDPMessageSerializer.serialize[zerocoded body]", w)
+        if plain.count(0) and len(ref_compress(plain)) >= len(plain):
+            part.mark_nontrivial(("wired-no-gain", name, case["tag"]))
+        # parsed from the wire with bytes beyond the last block, touched, serialized again
+        if len(seen) > 3:
+            continue
+        hdr = struct.pack(">BIB", case["flags"], case["packet_id"], 0)
+        for t in TRAILERS:
+            part.count("evaluations")
+            part.count("G_trailing_cases")
+            w2 = {"kind": "wired", "name": name, "tag": case["tag"], "trailing": t}
+            site = "UDPMessageSerializer.serialize[zerocoded body after parse with trailing bytes]"
+            try:
+                m = de.deserialize(hdr + ref_compress(plain + t))
+                list(m.blocks.items())
+                out = bytes(ser.serialize(m))
+            except Exception:
+                part.count("G_trailing_rejected")     # a template that cannot be followed by extra bytes (greedy last block): not judged
+                continue
+            _check_wired(part, _wire_body(out), plain + t, site, w2)
+            part.mark_nontrivial(("wired-trailing", name, t))
+    return part.dump()
+
+
 ADV_K = tuple(range(1, CAP // 256 + 5)) + (64, 100, 255, 256, 1000, 4096, 20000, 65535)
 
 
@@ -387,6 +467,8 @@ def run(run: Run):
         units.append((_unit_E, k))
     for pre in (None,) + ENC_ALPHA:
         units.append((_unit_F, (pre, 4 if quick else 5)))
+    for name in (msggen.HEADER_BASIS if quick else list(msggen.Gen(0).templates)):
+        units.append((_unit_G, name))
     # biggest units first so the pool drains evenly
     for d in pmap(_call, units, run.jobs, chunksize=1):
         run.merge(d)
@@ -394,7 +476,8 @@ def run(run: Run):
                 f"left/right contexts (encode + wrap-form decode); C: all decoder inputs over {{00,01,02,FF}} up to length {dec_len}; "
                 f"D: every body reference length CAP-560..CAP+600 x 2 body kinds x {len(TAILS)} tail tokens; E: {len(ADV_K)} sizes x 6 adversarial "
                 "shapes with allocation tracing; F: every ordered pair of strings over {00,01,FF} up to length 4 (thorough 5) with the first call's result held "
-                "across the second. distinct_nontrivial = distinct zero-run signatures (run lengths + start/end flags) of "
+                "across the second; G: every value row of {'14 basis' if quick else 'all 481'} templates flagged zerocoded through the real serialize(), "
+                f"plus {len(TRAILERS)} trailing-byte variants parsed and re-serialized. distinct_nontrivial = distinct zero-run signatures (run lengths + start/end flags) of "
                 "plaintexts with a run >= 2, plus distinct zero-token signatures (continuations, count, trailing) of decoder inputs "
                 "with a wrap / trailing token or a reference length over the cap")
     run.assumptions += [
@@ -416,6 +499,8 @@ def _call(u):
 
 def replay(w):
     part = Part()
+    if w["kind"] == "wired":
+        return list(_unit_G(w["name"])["violations"])
     if w["kind"] == "held":
         _held_pair(part, bytes(w["x"]), bytes(w["y"]))
         return list(part.viol.values())
